@@ -124,6 +124,30 @@ class _Instr:
                     return out
                 return os.listdir(d)
 
+            def _in_cache(s, x):
+                try:
+                    return os.path.realpath(os.path.dirname(os.fspath(x))) == I.dir
+                except TypeError:
+                    return False
+
+            def remove(s, x, *a, **k):
+                if s._in_cache(x):
+                    I.gate("Unlink", os.path.basename(os.fspath(x)).replace(" ", "_"))
+                return os.remove(x, *a, **k)
+
+            unlink = remove
+
+            def scandir(s, d="."):
+                if os.path.realpath(os.fspath(d)) == I.dir:
+                    I.gate("Scan")
+                    return iter(list(os.scandir(d)))
+                return os.scandir(d)
+
+            def rmdir(s, x, *a, **k):
+                if s._in_cache(x):
+                    I.gate("Unlink", os.path.basename(os.fspath(x)))
+                return os.rmdir(x, *a, **k)
+
             def replace(s, a, b):
                 if I.spec.get("kind") == "move":
                     I.gate("DReplace", I.findex(b))
@@ -135,6 +159,11 @@ class _Instr:
             def __getattr__(s, n):
                 return getattr(shutil, n)
 
+            def rmtree(s, x, *a, **k):
+                if os.path.realpath(os.path.dirname(os.fspath(x))) == I.dir or os.path.realpath(os.fspath(x)) == I.dir:
+                    I.gate("Unlink", os.path.basename(os.fspath(x)))
+                return shutil.rmtree(x, *a, **k)
+
             def copy(s, src, dst):
                 if os.path.realpath(os.path.dirname(dst)) != I.dir:
                     return shutil.copy(src, dst)
@@ -145,6 +174,53 @@ class _Instr:
         def copyfile(src, dst):
             I.chunked(src, dst, "DOpen", "DWrite", I.spec.get("findex", 0))
             return dst
+
+        import pathlib
+
+        class PathProxy2(type(pathlib.Path())):
+            """pathlib.Path whose directory scans and unlinks on the cache folder are gates"""
+
+            def _cache_dir(s):
+                try:
+                    return os.path.realpath(str(s)) == I.dir
+                except OSError:
+                    return False
+
+            def glob(s, pattern, **k):
+                if s._cache_dir():
+                    I.gate("Scan")
+                    return iter([PathProxy2(x) for x in sorted(pathlib.Path(str(s)).glob(pattern, **k))])
+                return super().glob(pattern, **k)
+
+            def rglob(s, pattern, **k):
+                if s._cache_dir():
+                    I.gate("Scan")
+                    return iter([PathProxy2(x) for x in sorted(pathlib.Path(str(s)).rglob(pattern, **k))])
+                return super().rglob(pattern, **k)
+
+            def iterdir(s):
+                if s._cache_dir():
+                    I.gate("Scan")
+                    return iter([PathProxy2(x) for x in sorted(pathlib.Path(str(s)).iterdir())])
+                return super().iterdir()
+
+            def unlink(s, *a, **k):
+                if os.path.realpath(os.path.dirname(str(s))) == I.dir:
+                    I.gate("Unlink", s.name.replace(" ", "_"))
+                return super().unlink(*a, **k)
+
+        class GlobProxy:
+            def __getattr__(s, n):
+                import glob as g
+                return getattr(g, n)
+
+            def glob(s, pat, *a, **k):
+                import glob as g
+                if os.path.realpath(os.path.dirname(str(pat))) == I.dir:
+                    I.gate("Scan")
+                return g.glob(pat, *a, **k)
+
+            iglob = glob
 
         class LockOsProxy:
             path = os.path
@@ -282,6 +358,10 @@ class _Instr:
 
         hc.os = OsProxy()
         hc.shutil = ShutilProxy()
+        if hasattr(hc, "Path"):
+            hc.Path = PathProxy2
+        if hasattr(hc, "glob"):
+            hc.glob = GlobProxy()
         hc.copyfile = copyfile
         hc.make_url_request = net
         su.make_url_request = net
@@ -314,13 +394,25 @@ class _Instr:
 
     # -- the programs
     def run(self):
+        """one call, or (kind 'seq') several calls made one after the other by this one OS process"""
+        self.hc.set_cache_directory(self.dir)
+        calls = self.spec["calls"] if self.spec["kind"] == "seq" else [self.spec]
+        out = None
+        for k, call in enumerate(calls):
+            out = self.run_call(call)
+            if k < len(calls) - 1:
+                self.conn.send(("calldone", out))
+        return out
+
+    def run_call(self, call):
         hc, hl, hio = self.hc, self.hl, self.hio
-        kind = self.spec["kind"]
-        hc.set_cache_directory(self.dir)
+        kind = call["kind"]
+        self.phase, self.net_in_refresh, self.netcalls = "normal", 0, 0
+        self.listing, self.read_status, self.enters, self.populated = None, None, [], False
         out = {"kind": kind}
         try:
             if kind == "load":
-                v = self.spec["version"]
+                v = call["version"]
                 s = hio.load_schema_version(v)
                 ref = self.orig_load(os.path.join(self.inst, "HED" + v + ".xml"))
                 out["result"] = ["ok", bool(s == ref)]
@@ -328,8 +420,8 @@ class _Instr:
                 r = hc.cache_xml_versions(cache_folder=self.dir)
                 out["result"] = ["ret", r]
             elif kind == "move":
-                dest = os.path.join(self.dir, self.inst_files[self.spec["findex"]])
-                r = hc._safe_move_tmp_to_folder(self.spec["tmp"], dest)
+                dest = os.path.join(self.dir, self.inst_files[call["findex"]])
+                r = hc._safe_move_tmp_to_folder(call["tmp"], dest)
                 out["result"] = ["ret", "dest" if r == dest else repr(r)]
             elif kind == "hold":
                 with hl.CacheLock(self.dir, write_time=False):
@@ -472,7 +564,7 @@ def run_case(case):
     vtime = VT0
     procs = []
     out = {"id": case["id"], "events": [], "gates": [], "results": [], "killed": [], "lock_probe": None,
-           "inside": [], "overlap": None}
+           "inside": [], "overlap": None, "refresh_attempts": []}
     try:
         for spec in case["procs"]:
             spec = dict(spec, dir=d, vtime=vtime, inst=inst)
@@ -488,20 +580,28 @@ def run_case(case):
             b.close()
             p = _P()
             p.pid, p.conn, p.state, p.at, p.result, p.inside = pid, a, "live", None, None, False
+            # model process ids: one per CALL (a 'seq' process makes several calls one after the other)
+            p.calls = spec["calls"] if spec["kind"] == "seq" else [spec]
+            p.base = sum(len(q.calls) for q in procs)
+            p.call, p.results = 0, []
             procs.append(p)
         for p in procs:
             _wait(p)
+
+        def mp(q):
+            return q.base + min(q.call, len(q.calls) - 1)
 
         def do(ev):
             # after every executed event: who is inside 'with CacheLock' (reported by the processes themselves)
             n0 = len(out["events"])
             do_raw(ev)
             if len(out["events"]) > n0:
-                ins = [i for i, q in enumerate(procs) if q.state == "live" and q.inside]
+                ins = [mp(q) for q in procs if q.state == "live" and q.inside]
                 out["inside"].append(ins)
                 if len(ins) >= 2 and out["overlap"] is None:
                     out["overlap"] = {"step": n0, "event": out["events"][n0], "inside": ins,
-                                      "at": [procs[i].at for i in ins], "os_locked": _probe(d, procs)["os_locked"]}
+                                      "at": [q.at for q in procs if q.state == "live" and q.inside],
+                                      "os_locked": _probe(d, procs)["os_locked"]}
 
         def do_raw(ev):
             nonlocal vtime
@@ -519,17 +619,31 @@ def run_case(case):
                 os.waitpid(p.pid, 0)
                 p.state = "dead"
                 p.inside = False
-                out["killed"].append([x, p.at])
-                out["events"].append(["C", x])
+                out["killed"].append([mp(p), p.at])
+                out["events"].append(["C", mp(p)])
                 out["gates"].append(None)
                 return
-            out["events"].append(["R", x])
+            out["events"].append(["R", mp(p)])
             out["gates"].append(p.at)
+            if p.at == ["Enter"] and p.calls[min(p.call, len(p.calls) - 1)]["kind"] == "refresh":
+                # the oracle's own reading of the SHARED stamp at the moment this refresh is attempted
+                sp = os.path.join(d, "last_update.txt")
+                try:
+                    age = vtime - float(open(sp).read())
+                except (OSError, ValueError):
+                    age = None
+                out["refresh_attempts"].append({"mp": mp(p), "age": age, "vtime": vtime})
             p.conn.send(("go", vtime))
             _wait(p)
 
         for i, ev in enumerate(case["schedule"]):
-            do(ev)
+            if ev[0] == "U":          # run process x until the call it is in has returned
+                q, c0, guard = procs[ev[1]], procs[ev[1]].call, 0
+                while q.state == "live" and q.call == c0 and guard < 400:
+                    do(["R", ev[1]])
+                    guard += 1
+            else:
+                do(ev)
             if case.get("probe_lock_after") == i:
                 out["lock_probe"] = _probe(d, procs)
         if case.get("finish", True):
@@ -539,7 +653,11 @@ def run_case(case):
                     if p.state == "live":
                         do(["R", i])
                         guard += 1
-        out["results"] = [p.result if p.state == "done" else {"state": p.state, "at": p.at} for p in procs]
+        out["results"] = []
+        for p in procs:
+            rs = list(p.results) + ([p.result] if p.state == "done" else [{"state": p.state, "at": p.at}])
+            rs += [{"state": "notstarted"}] * (len(p.calls) - len(rs))
+            out["results"] += rs
         out["final"] = dir_state(d, inst, files)
         out["vtime"] = vtime
     finally:
@@ -575,6 +693,10 @@ def _wait(p, timeout=120):
         p.state = "done"
         p.result = {"harness_error": "child died"}
         return
+    if msg[0] == "calldone":      # one call of a multi-call process has returned; it goes on to the next
+        p.results.append(msg[1])
+        p.call += 1
+        return _wait(p, timeout)
     if msg[0] == "gate":
         p.at = msg[1]
         p.inside = bool(msg[2])
@@ -606,6 +728,14 @@ def _probe(d, procs):
 # model side
 # ------------------------------------------------------------------------------------------------
 
+def mprocs(case):
+    """the model's processes: one per call (a 'seq' OS process makes several calls one after the other)"""
+    out = []
+    for s in case["procs"]:
+        out += s["calls"] if s["kind"] == "seq" else [s]
+    return out
+
+
 def model_line(case, nfiles, th):
     init = case.get("init", {})
     fl = []
@@ -613,7 +743,7 @@ def model_line(case, nfiles, th):
         fl.append(["V", int(idx), list(cells)])
     st = init.get("stamp", "N")
     kinds = []
-    for s in case["procs"]:
+    for s in mprocs(case):
         kinds.append({"load": lambda: ["LF" if FIXED else "L", s["vindex"]],
                       "refresh": lambda: "RF" if FIXED else "R",
                       "move": lambda: ["D", s["findex"]]}[s["kind"]]())
@@ -679,7 +809,7 @@ def pc_gate(pc, nfiles):
 def canon_result(res):
     """implementation result -> the model's outcome vocabulary"""
     if res is None or "result" not in res:
-        return "live" if res and res.get("state") in ("dead", "live") else "harness"
+        return "live" if res and res.get("state") in ("dead", "live", "notstarted") else "harness"
     r = res["result"]
     if r[0] == "ok":
         return "loaded" if r[1] else "loaded-different"
@@ -714,7 +844,7 @@ def oracle(case, out, res, nfiles):
            "probe_lock_after": case.get("probe_lock_after"), "what": case.get("what", "")}
     init = case.get("init", {})
     killed_at = {k: at for k, at in out["killed"]}
-    for i, (spec, r) in enumerate(zip(case["procs"], out["results"])):
+    for i, (spec, r) in enumerate(zip(mprocs(case), out["results"])):
         if r and "harness_error" in r:
             res.violation("harness-error", cid, r["harness_error"], no_input=True)
             continue
@@ -747,6 +877,18 @@ def oracle(case, out, res, nfiles):
                     res.report("refresh-within-interval-skipped", cid,
                                f"proc {i}: stamp age {VT0 - st[1]} < threshold but outcome {o}, "
                                f"{r.get('netcalls')} network requests")
+    # clause: a refresh attempted within the refresh interval is skipped -- judged for EVERY refresh call of every
+    # process against the controller's own reading of the shared last_update.txt when the call entered CacheLock
+    th = case.get("th", 1800)
+    for att in out.get("refresh_attempts", []):
+        r = out["results"][att["mp"]]
+        if att["age"] is None or not r or "result" not in r:
+            continue
+        if 0 <= att["age"] < th and (canon_result(r) != "skipped" or r.get("netcalls")):
+            res.report("refresh-within-interval-skipped", cid,
+                       f"call {att['mp']} entered cache_xml_versions {att['age']:.0f} s after the time recorded in "
+                       f"last_update.txt (interval {th} s) but was not skipped: result {r['result']}, "
+                       f"{r.get('netcalls')} network requests")
     # clause: a finished population leaves byte-identical copies
     final = out.get("final", {})
     populated = [i for i, r in enumerate(out["results"]) if r and r.get("populated")]
@@ -879,6 +1021,53 @@ def build_cases(rng, tier, files, th, wide):
         [["R", 2]] * 5)
     add("lock queue: holder killed while B waits, C arrives later", [L, L, L],
         [["R", 0], ["R", 1], ["R", 2]] + [["R", 0]] * 6 + [["R", 1]] * 2 + [["C", 0]] + [["R", 1]] * 4 + [["R", 2]] * 5)
+    # -- a holder stopped INSIDE its population (also between a temporary copy and its rename) while every other
+    #    contender, which has listed the folder before, performs its next operations; then the holder goes on
+    g_tmp = 7 if FIXED else 5         # list enter [acquire] exists open write write -> next: rename / exists
+    add("holder between temporary copy and rename, the others do their next 3 operations", [L, L, L],
+        [["R", 0], ["R", 1], ["R", 2]] + [["R", 0]] * (g_tmp - 1) + [["R", 1]] * 3 + [["R", 2]] * 3 +
+        [["R", 0]] * (pop + 8))
+    for k in range(6 if tier == "quick" else 50):
+        n = rng.choice([2, 3])
+        ps = [load_spec(rng.choice(versions), files) for _ in range(n)]
+        order = list(range(n))
+        rng.shuffle(order)
+        sch = [["R", i] for i in order]
+        a = order[0]
+        sch += [["R", a]] * (2 + rng.randint(1, pop - 2))
+        for o in order[1:]:
+            sch += [["R", o]] * rng.choice([1, 2, 3, 4])
+        sch += [["R", a]] * rng.choice([1, 3, pop + 8])
+        for _ in range(rng.randint(0, 12)):
+            sch.append(["R", rng.randrange(n)])
+        add("holder stopped inside its population, others proceed", ps, sch)
+    # -- several calls made by ONE OS process, interleaved with other processes and clock ticks: what a process did
+    #    or read earlier must not influence a later decision (refresh interval against the SHARED stamp)
+    RR = {"kind": "refresh"}
+    add("two OS processes, two refresh calls each: read, other refreshes, try again",
+        [{"kind": "seq", "calls": [RR, RR]}, {"kind": "seq", "calls": [RR, RR]}],
+        [["U", 0], ["T", th + 10], ["U", 1], ["T", 5], ["U", 0], ["T", 5], ["U", 1]])
+    add("skipped first call, other process refreshes later, try again",
+        [{"kind": "seq", "calls": [RR, RR]}, {"kind": "seq", "calls": [RR]}],
+        [["U", 0], ["T", th], ["U", 1], ["T", 7], ["U", 0]], init={"stamp": ["A", VT0 - 100]})
+    for k in range(8 if tier == "quick" else 60):
+        n = rng.choice([2, 2, 3])
+        ps = []
+        for i in range(n):
+            calls = [dict(RR) for _ in range(rng.choice([2, 2, 3]))]
+            if rng.random() < 0.3:
+                calls[0] = load_spec(rng.choice(versions), files)
+            ps.append({"kind": "seq", "calls": calls})
+        sch = []
+        for _ in range(rng.randint(4, 9)):
+            x = rng.randrange(n)
+            sch.append(["U", x] if rng.random() < 0.75 else ["R", x])
+            if rng.random() < 0.7:
+                sch.append(["T", rng.choice([1, 5, 60, th // 2, th - 1, th, th + 10, 2 * th])])
+        init = {}
+        if rng.random() < 0.5:
+            init["stamp"] = ["A", VT0 - rng.choice([0, 100, th - 1, th, th + 50, 4 * th])]
+        add("several calls per OS process interleaved with ticks", ps, sch, init=init)
     for k in range(8 if tier == "quick" else 60):
         n = rng.choice([3, 3, 4])
         ps = [load_spec(rng.choice(versions), files) for _ in range(n)]
@@ -1006,6 +1195,7 @@ def run_external_lock(case):
         b.close()
         p = _P()
         p.pid, p.conn, p.state, p.at, p.result, p.inside = pid, a, "live", None, None, False
+        p.calls, p.base, p.call, p.results = [{"kind": "hold"}], 0, 0, []
         _wait(p)
         n = 0
         while p.state == "live" and n < 20:
@@ -1026,9 +1216,11 @@ def execute(cases, scratch):
     import hed.schema  # noqa: imported before forking, never used to load a schema in this process
     import hed.schema.hed_cache  # noqa
     import portalocker  # noqa
+    import hed.schema.hed_cache_lock as hl0
     for c in cases:
         c["scratch"] = scratch
         c["inst"] = os.path.join(scratch, "installed")
+        c["th"] = int(hl0.CACHE_TIME_THRESHOLD)
     ctx = get_context("fork")
     with ctx.Pool(min(14, int(C.JOBS)), initializer=_pool_init) as pool:
         outs = pool.map(run_case_safe, cases, chunksize=1)
@@ -1122,6 +1314,8 @@ def replay(payload):
         case["init"] = {k: ({int(a): b for a, b in v.items()} if k == "files" else v)
                         for k, v in case.get("init", {}).items()}
         case["scratch"] = scratch
+        import hed.schema.hed_cache_lock as hl0
+        case["th"] = int(hl0.CACHE_TIME_THRESHOLD)
         out = run_case_safe(case)
     finally:
         shutil.rmtree(scratch, ignore_errors=True)
